@@ -167,6 +167,8 @@ type World struct {
 	lastRead  map[uint64][]byte
 	burstNode uint64
 	burstLeft int
+	stallNode uint64 // generator state: node whose append acknowledgements are held back until stallEnd
+	stallEnd  int
 	phaseEnd int
 	Trace []Action
 	Log   []string
